@@ -6,6 +6,7 @@ Open Scope Z_scope.
 Record case := {
   c_hosts : list (string * string);          (* probe host, SNI name derived from it *)
   c_xps : list (string * string);            (* cross probes: Host header, SNI of the connection it arrives on *)
+  c_mid : bool;                              (* the hosts were also probed after every manager mutation *)
   c_steps : list (op * step_obs)             (* ops with what the real gateway did *)
 }.
 
@@ -34,7 +35,7 @@ Definition model_x (g : gw) (hs : string * string) : string * Z :=
    request_code g (fst hs) (snd hs)).
 Definition x_eqb (a b : string * Z) : bool := (String.eqb (fst a) (fst b) && (snd a =? snd b))%bool.
 
-Fixpoint agree_steps (hosts xps : list (string * string)) (w : world) (l : list (op * step_obs)) : bool :=
+Fixpoint agree_steps (hosts xps : list (string * string)) (mid : bool) (w : world) (l : list (op * step_obs)) : bool :=
   match l with
   | [] => true
   | (p, b) :: r =>
@@ -45,11 +46,14 @@ Fixpoint agree_steps (hosts xps : list (string * string)) (w : world) (l : list 
        && (res_code (so_res out) =? t_res b)
        && forall2b host_obs_eqb (map (model_host (w_gw w')) hosts) (t_hosts b)
        && forall2b x_eqb (map (model_x (w_gw w')) xps) (t_x b)
-       && agree_steps hosts xps w' r)%bool
+       && (if mid then forall2b (forall2b host_obs_eqb)
+                                (map (fun gm => map (model_host gm) hosts) (step_trace w p)) (t_mid b)
+           else true)
+       && agree_steps hosts xps mid w' r)%bool
   end.
 
 (* clause layout: agree, resolves_iff, same_tenant, no_capture, deleted_stop, tls_of_owner, host_norm, alive,
-   request_by_host *)
+   request_by_host, mid_update *)
 Definition eval (c : case) : list bool :=
-  agree_steps (c_hosts c) (c_xps c) empty_world (c_steps c)
+  agree_steps (c_hosts c) (c_xps c) (c_mid c) empty_world (c_steps c)
   :: hist_ok (c_hosts c) (c_xps c) (sinit (List.length (c_hosts c))) (c_steps c).
